@@ -20,7 +20,8 @@ RULE = ("seeded random construction programs (1-40 steps, 1-8 modes) over bs(Rx/
         "and at least one of {loss before a later component, reversed-order H beam splitter, "
         "boundary value}")
 MANDATORY = ["bs_after_loss", "ps_after_loss", "swaps_after_loss", "unitary_after_loss",
-             "loss_after_loss", "barrier_after_loss", "reversed_H_bs", "nonadjacent_bs", "large_mode_count", "group_shared_then_unpacked_and_extended", "malformed_component_rejected"]
+             "loss_after_loss", "barrier_after_loss", "reversed_H_bs", "nonadjacent_bs", "large_mode_count", "group_shared_then_unpacked_and_extended", "malformed_component_rejected",
+             "wide_circuit_addressed_with_small_numpy_integers"]
 DECIDING = ["u_full_postconditions", "mon.cmp"]
 BUDGET = {"quick": 25, "thorough": 420}
 ASSUMPTIONS = ["own Glynn permanent and wire model are the reference (written from the documented "
@@ -157,12 +158,53 @@ def directed(ctx, lw, rng):
     drain_into(ctx, {"program": log})
 
 
+def wide_small_int_modes(ctx, lw, rng):
+    """Wide circuits addressed with fixed-width numpy integers at the limit of their type (np.uint8(255), np.int8(127),
+    np.uint16 / np.int16 for contrast): a mode number is a number, whatever carries it."""
+    n = int(rng.choice([129, 130, 257, 258, 300]))
+    c = lw.Circuit(n)
+    log = [["circuit", n]]
+    cands = [(np.int8, 127), (np.int8, 126), (np.uint8, 127), (np.int16, 127), (np.uint16, 127)]
+    if n > 256:
+        cands += [(np.uint8, 255), (np.uint8, 254), (np.uint16, 255), (np.int16, 255), (np.int64, 255)]
+    for _ in range(int(rng.integers(2, 7))):
+        ty, m = cands[int(rng.integers(len(cands)))]
+        kind = str(rng.choice(["bs_default", "bs_default", "bs_explicit", "ps", "loss", "bs_lossy"]))
+        try:
+            if kind == "bs_default":
+                r = float(rng.uniform(0.1, 0.9)); conv = str(rng.choice(["Rx", "H"]))
+                c.bs(ty(m), reflectivity=r, convention=conv); log.append(["bs", f"{ty.__name__}({m})", None, r, conv, 0])
+            elif kind == "bs_explicit":
+                r = float(rng.uniform(0.1, 0.9))
+                c.bs(ty(m), int(m) + 1, r); log.append(["bs", f"{ty.__name__}({m})", m + 1, r, "Rx", 0])
+            elif kind == "bs_lossy":
+                r = float(rng.uniform(0.1, 0.9)); l_ = float(rng.uniform(0.1, 0.5))
+                c.bs(ty(m), None, r, l_); log.append(["bs", f"{ty.__name__}({m})", None, r, "Rx", l_])
+            elif kind == "ps":
+                phi = float(rng.uniform(-3, 3))
+                c.ps(ty(m), phi); log.append(["ps", f"{ty.__name__}({m})", phi, 0])
+            else:
+                l_ = float(rng.uniform(0.1, 0.9))
+                c.loss(ty(m), l_); log.append(["loss", f"{ty.__name__}({m})", l_])
+        except Exception as e:  # noqa: BLE001
+            ctx.violation(f"a legal component on mode {ty.__name__}({m}) of a {n}-mode circuit raised {type(e).__name__}: {e}",
+                          case={"program": log + [[kind, f"{ty.__name__}({m})"]]},
+                          mechanism="legal_call_raised:" + type(e).__name__, monitor="driver")
+    ctx.bucket("wide_circuit_addressed_with_small_numpy_integers")
+    ctx.case(("wide_small_int", n, len(log)), True, sample={"program": log})
+    check_circuit(ctx, c, log, rng)
+    drain_into(ctx, {"program": log})
+
+
 def run(ctx):
     lw = setup(ctx, warm=False)
     rng = ctx.rng
     directed(ctx, lw, rng)
+    wide_small_int_modes(ctx, lw, rng)
     max_steps = 40 if ctx.tier == "thorough" else 25
     while not ctx.out_of_time():
+        if rng.random() < 0.004:
+            wide_small_int_modes(ctx, lw, rng)
         n = int(rng.integers(1, 9)) if rng.random() < 0.9 else int(rng.integers(9, 15))
         if rng.random() < 0.03:
             n = int(rng.choice([16, 17, 20, 24, 31, 32, 33, 40, 64, 65]))     # wide circuits: size-dependent code paths
